@@ -138,7 +138,7 @@ type harnessResult struct {
 	res       *sym.ExploreResult
 	wall      float64
 	loadErr   string
-	violation []reportedFinding
+	violation []*reportedFinding
 	known     map[string]*reportedFinding
 	mismatch  []string
 	witnessOK int
@@ -252,8 +252,19 @@ func cmdCheck(args []string) int {
 		if n, _ := strconv.Atoi(os.Getenv("VERIF_WORKERS")); n > 0 {
 			cfg.Workers = n
 		}
-		if tc.BudgetSec > 0 {
-			cfg.Deadline = time.Now().Add(time.Duration(tc.BudgetSec) * time.Second)
+		if n, _ := strconv.Atoi(os.Getenv("VERIF_MAXPATHS")); n > 0 {
+			cfg.MaxPaths = n
+		}
+		bs := tc.BudgetSec
+		if bs == 0 {
+			bs = 600
+			if tier == "thorough" {
+				bs = 3600
+			}
+		}
+		cfg.Deadline = time.Now().Add(time.Duration(bs) * time.Second)
+		if verbose {
+			cfg.Progress = os.Stderr
 		}
 		hs := time.Now()
 		res, err := sym.Explore(prog, entry, cfg)
@@ -306,8 +317,7 @@ func cmdCheck(args []string) int {
 			if f.KnownID != "" {
 				hr.known[f.KnownID+"\x00"+f.Msg] = rf
 			} else {
-				hr.violation = append(hr.violation, *rf)
-				rf = &hr.violation[len(hr.violation)-1]
+				hr.violation = append(hr.violation, rf)
 			}
 			jobs = append(jobs, &job{hr: hr, rf: rf, file: rf.replayPath})
 		}
@@ -396,8 +406,7 @@ func cmdCheck(args []string) int {
 		for _, m := range hr.witnessNo {
 			inconcl = append(inconcl, hr.cfg.Func+": ENCODING-MISMATCH (witness) "+m)
 		}
-		for i := range hr.violation {
-			v := &hr.violation[i]
+		for _, v := range hr.violation {
 			if v.reproduced {
 				violations++
 				lines = append(lines, fmt.Sprintf("VIOLATION property=%s replay=%s", id, v.replayPath))
